@@ -527,7 +527,7 @@ func values(r *hx.Run, thorough bool) [][]byte {
 	fixed := []string{"", "x\r\nX-Injected: 1", "x\nX-Injected: 1", "x\rX-Injected: 1", "x\r\n\r\nbody", "a\x00b", "=?utf-8?q?a?=",
 		"na\xc3\xafve r\xc3\xa9sum\xc3\xa9", "\xff\xfe invalid utf8", "tab\there", "  leading and trailing  ", "a;b=c\"d\\e", "quote\"inside",
 		strings.Repeat("w", 80), strings.Repeat("long word ", 30), strings.Repeat("\xc3\xa4", 70), strings.Repeat("\xe2\x82\xac", 40),
-		"\xc3\xa9\\x", "J\xc3\xbcrgen \\ M", "C:\\dir\\file", "a\\b", "back\\\\slash", "(comment) name", "name (comment)", "a, b", "<angle>", "semi;colon", "at@sign", "dot.ted name",
+		"\xc3\xa9\\x", "J\xc3\xbcrgen \\ M", "no\xc2\xa0break name", "ideo\xe3\x80\x80space", "zw\xe2\x80\x8cnj", "soft\xc2\xadhyphen", "lrm\xe2\x80\x8emark", "C:\\dir\\file", "a\\b", "back\\\\slash", "(comment) name", "name (comment)", "a, b", "<angle>", "semi;colon", "at@sign", "dot.ted name",
 		"c\r\nX: 2", "<id@host>", "caf\xc3\xa9 \r\n folded", "\r\n", "\r", "\n", "a\r\n b",
 		// long runs of blanks: whitespace-only continuation lines must not turn into empty lines
 		"Hello" + strings.Repeat(" ", 74) + "world", "Hello" + strings.Repeat(" ", 75) + "world", "Hello" + strings.Repeat(" ", 76) + "world",
